@@ -204,11 +204,23 @@ def special_module():
 # ------------------------------------------------------------------ scipy.integrate / stats / sklearn
 
 def quad(f, a, b, *args, **kw):
-    """Recording stub: returns an unconstrained fresh value (outside every claim)."""
+    """Recording stub: symbolically the value of the integral is an unconstrained fresh variable (the quadrature is outside
+    every claim; the recorded integrand and limits are what the set-up clauses inspect).  With concrete inputs the real
+    scipy routine integrates the model's integrand."""
     import z3
     c = ctx()
-    event('quad', (a, b))
-    return (R(z3.Real(c.fresh_name('quad'))), R(z3.Real(c.fresh_name('quaderr'))))
+    if getattr(c, 'mode', None) == 'concrete':
+        import scipy.integrate as _si
+        from fractions import Fraction as _Fr
+
+        def g(x):
+            v = f(R(_Fr(float(x))), *args)
+            return float(v.n) if isinstance(v, R) else float(v)
+        val, err = _si.quad(g, float(a), float(b), **kw)
+        return (R(_Fr(float(val))), R(_Fr(float(err))))
+    out = R(z3.Real(c.fresh_name('quad')))
+    event('quad', dict(f=f, a=a, b=b, args=args, out=out))
+    return (out, R(z3.Real(c.fresh_name('quaderr'))))
 
 
 class _Sol:
